@@ -281,6 +281,22 @@ def run(ctx):
             continue
         row = table.get(s["key"])
         if row is None:
+            # the iteration moved into an extracted helper / another function of the same file: adopt the reviewed row of the same
+            # file, iteration method and sink class whose own site no longer exists (the sink class is re-checked below)
+            live = {x["key"] for x in sites}
+            parts = s["key"].split(" | ")
+            for k2, r2_ in table.items():
+                p2 = k2.split(" | ")
+                same_file = r2_.get("file") == c.fn.file
+                same_fn = p2[0].split("::{closure")[0].rsplit("::", 1)[-1] == parts[0].split("::{closure")[0].rsplit("::", 1)[-1] and p2[0].split("::")[0] == parts[0].split("::")[0]
+                if k2 in live or k2 in used or not (same_file or same_fn) or len(p2) < 2 or len(parts) < 2 or p2[1] != parts[1]:
+                    continue
+                if sig_class(r2_["sig"]) == sig_class(s["sig"]):
+                    row = r2_
+                    used.add(k2)
+                    ctx.note("hash-order row adopted after a move: %s <- %s" % (s["key"], k2))
+                    break
+        if row is None:
             ctx.ob("R1", s["key"], False, "iteration over a hashed container reaches an order-sensitive or unclassified sink (%s; %s) and has no reviewed verdict: the result may depend on the hash seed" % (s["sig"], "; ".join(s["detail"])[:200]), where=where, facts={"sig": s["sig"]})
             continue
         used.add(s["key"])
@@ -445,8 +461,9 @@ def r2(ctx):
     # snapshots
     om = ctx.anchor("R2", r"^ast_grep::verify::snapshot::ordered_map$")
     if om:
+        om = prog.inlined(om)  # with a private helper that holds the body spliced in
         col = [c for c in om.calls if c.name == "collect"]
-        ok = bool(col) and "BTreeMap" in om.locals[col[0].dest[0]]
+        ok = bool(col) and any("BTreeMap" in om.locals[c.dest[0]] for c in col)
         ctx.ob("R2", "ordered_map collects into a BTreeMap", ok, "snapshot maps are serialised through a BTreeMap", where=om.loc())
     ser = prog.find_fns(r"impl serde::ser::Serialize for ast_grep::verify::snapshot::TestSnapshots>::serialize$")
     if len(ser) != 1:
